@@ -718,29 +718,34 @@ theorem matcherRowSpec_missing (a : MatcherArgs) (o : OutCfg) (tok : Option (Str
     rcases h with h | h <;> simp [h]
   simp only [this, if_true]
 
-/-- the specification row of `apply_matcher` for a candidate row, in terms of the SOURCE rows carrying its keys -/
+/-- the specification row of `apply_matcher` for a candidate row, in terms of the SOURCE rows whose keys are
+    Python-equal to its key cells -/
 theorem matcherTableSpec_of_rows (a : MatcherArgs) (t : Option TokObj) (toks : TokFn) (sim : SimArg → SimArg → PyV)
     (c l r : Frame) (k1 : validateKeyAttr a.lKey l = .ok ()) (k2 : validateKeyAttr a.rKey r = .ok ())
     (cr ls rs : Row) (hls : ls ∈ l.rows) (hrs : rs ∈ r.rows)
-    (hkl : ls.cell (l.colIdx a.lKey) = cr.cell (c.colIdx a.candLKey))
-    (hkr : rs.cell (r.colIdx a.rKey) = cr.cell (c.colIdx a.candRKey)) :
+    (hkl : (ls.cell (l.colIdx a.lKey)).pyEq (cr.cell (c.colIdx a.candLKey)) = true)
+    (hkr : (rs.cell (r.colIdx a.rKey)).pyEq (cr.cell (c.colIdx a.candRKey)) = true) :
     matcherTableSpec a t toks sim c l r cr =
       matcherRowSpec a (matcherOutCfg a) (t.map (fun tk => toks tk.returnSet)) sim
         ((matcherLProj a).idxOf a.lAttr) ((matcherRProj a).idxOf a.rAttr) cr
         (((matcherLProj a).map l.colIdx).map ls.cell) (((matcherRProj a).map r.colIdx).map rs.cell)
         (cr.cell (c.colIdx a.candLKey)) (cr.cell (c.colIdx a.candRKey)) := by
-  have hlk : ((matcherLRows a l).map (·.cell ((matcherLProj a).idxOf a.lKey))).Nodup := by
-    rw [matcherLRows_keys]; exact nodup_of_validateKeyAttr _ _ k1
-  have hrk : ((matcherRRows a r).map (·.cell ((matcherRProj a).idxOf a.rKey))).Nodup := by
-    rw [matcherRRows_keys]; exact nodup_of_validateKeyAttr _ _ k2
+  have hlk : PyDistinct ((matcherLRows a l).map (·.cell ((matcherLProj a).idxOf a.lKey))) := by
+    rw [matcherLRows_keys]; exact pyDistinct_of_validateKeyAttr _ _ k1
+  have hrk : PyDistinct ((matcherRRows a r).map (·.cell ((matcherRProj a).idxOf a.rKey))) := by
+    rw [matcherRRows_keys]; exact pyDistinct_of_validateKeyAttr _ _ k2
   have hl := buildDict_get _ _ hlk (((matcherLProj a).map l.colIdx).map ls.cell)
-    (List.mem_map.2 ⟨ls, hls, rfl⟩)
+    (List.mem_map.2 ⟨ls, hls, rfl⟩) (cr.cell (c.colIdx a.candLKey))
+    (by
+      have hkc : Row.cell (((matcherLProj a).map l.colIdx).map ls.cell) ((matcherLProj a).idxOf a.lKey)
+          = ls.cell (l.colIdx a.lKey) := (projection_faithful l a.lKey a.lAttr a.lOut ls).1
+      rw [hkc]; exact hkl)
   have hr := buildDict_get _ _ hrk (((matcherRProj a).map r.colIdx).map rs.cell)
-    (List.mem_map.2 ⟨rs, hrs, rfl⟩)
-  rw [show Row.cell (((matcherLProj a).map l.colIdx).map ls.cell) ((matcherLProj a).idxOf a.lKey) =
-      cr.cell (c.colIdx a.candLKey) from ((projection_faithful l a.lKey a.lAttr a.lOut ls).1).trans hkl] at hl
-  rw [show Row.cell (((matcherRProj a).map r.colIdx).map rs.cell) ((matcherRProj a).idxOf a.rKey) =
-      cr.cell (c.colIdx a.candRKey) from ((projection_faithful r a.rKey a.rAttr a.rOut rs).1).trans hkr] at hr
+    (List.mem_map.2 ⟨rs, hrs, rfl⟩) (cr.cell (c.colIdx a.candRKey))
+    (by
+      have hkc : Row.cell (((matcherRProj a).map r.colIdx).map rs.cell) ((matcherRProj a).idxOf a.rKey)
+          = rs.cell (r.colIdx a.rKey) := (projection_faithful r a.rKey a.rAttr a.rOut rs).1
+      rw [hkc]; exact hkr)
   unfold matcherTableSpec matcherSpecFn
   rw [hl, hr]
 
